@@ -354,7 +354,7 @@ func (d *dumper) qid(q appdef.QName) uint64 {
 
 type rowDump struct {
 	text    string
-	coq     string // mkRow qid id parent cont active []
+	coq     string // mkRow qid id parent cont active [] <mark>: the mark ("sys.IsActive was assigned") is filled in by rowCoq
 	qname   appdef.QName
 	emptied []uint64
 }
@@ -379,7 +379,7 @@ func (d *dumper) row(rr istructs.IRowReader, q appdef.QName, keepEmpty bool) row
 	rd := rowDump{qname: q}
 	if q == appdef.NullQName {
 		rd.text = "null"
-		rd.coq = "(mkRow 0 0 0 0 true [])"
+		rd.coq = "(mkRow 0 0 0 0 true [] MARK)"
 		return rd
 	}
 	var id, parent uint64
@@ -427,9 +427,11 @@ func (d *dumper) row(rr istructs.IRowReader, q appdef.QName, keepEmpty bool) row
 	cid, err := d.r.containerID(cont)
 	d.fail(err)
 	rd.text = fmt.Sprintf("%v#%d^%d@%s/%v{%s}", q, id, parent, cont, active, strings.Join(fields, ";"))
-	rd.coq = fmt.Sprintf("(mkRow %d %d %d %d %s [])", d.qid(q), id, parent, cid, kit.Bool(active))
+	rd.coq = fmt.Sprintf("(mkRow %d %d %d %d %s [] MARK)", d.qid(q), id, parent, cid, kit.Bool(active))
 	return rd
 }
+
+func rowCoq(rd rowDump, mark bool) string { return strings.Replace(rd.coq, "MARK", kit.Bool(mark), 1) }
 
 func (d *dumper) object(o istructs.IObject) (text, coq string) {
 	rd := d.row(o, o.QName(), false)
@@ -441,7 +443,7 @@ func (d *dumper) object(o istructs.IObject) (text, coq string) {
 			coqs = append(coqs, c)
 		}
 	}
-	return rd.text + "[" + strings.Join(texts, ",") + "]", fmt.Sprintf("(Obj %s %s)", rd.coq, kit.List(coqs))
+	return rd.text + "[" + strings.Join(texts, ",") + "]", fmt.Sprintf("(Obj %s %s)", rowCoq(rd, false), kit.List(coqs))
 }
 
 type eventDump struct {
@@ -501,7 +503,7 @@ func (r *rig) dump(ev istructs.IDbEvent) (res eventDump, err error) {
 	storedQName := ev.QName()
 	unl := raw.ArgumentUnloggedObject()
 	hasUnl := unl != nil && unl.QName() != appdef.NullQName
-	const nullT, nullC = "null[]", "(Obj (mkRow 0 0 0 0 true []) [])"
+	const nullT, nullC = "null[]", "(Obj (mkRow 0 0 0 0 true [] false) [])"
 	unlT, unlC := nullT, nullC
 	var creates, updates []string
 	var cudTexts []string
@@ -537,7 +539,8 @@ func (r *rig) dump(ev istructs.IDbEvent) (res eventDump, err error) {
 	var ups []upd
 	ev.CUDs(func(c istructs.ICUDRow) bool {
 		rd := d.row(c, c.QName(), true)
-		coq := fmt.Sprintf("(mkCud %s %s %s)", rd.coq, nlist(rd.emptied), kit.Bool(c.IsActivated() || c.IsDeactivated()))
+		// the mark is observable on update rows only (IsActivated / IsDeactivated are false on new rows)
+		coq := fmt.Sprintf("(mkCud %s %s)", rowCoq(rd, !c.IsNew() && (c.IsActivated() || c.IsDeactivated())), nlist(rd.emptied))
 		if c.IsNew() {
 			creates = append(creates, coq)
 			cudTexts = append(cudTexts, "new:"+rd.text)
